@@ -385,7 +385,17 @@ func ruleOffsetCapture(c *core.Ctx, rule string) {
 					}
 				}
 				if header == nil {
-					o.Fail("no object header write follows setXRef")
+					after := 0
+					for _, w := range writes {
+						if w != sx.V && g.PathExists(sx.V, w, nil) {
+							after++
+						}
+					}
+					if after > 0 {
+						o.Unrec("the object header is not written with a format string containing 'obj' (%d other writes follow setXRef): which write is the header is not decided", after)
+					} else {
+						o.Fail("no object header write follows setXRef")
+					}
 					return
 				}
 				var others []*core.V
